@@ -84,13 +84,25 @@ def parseSeqOp (t : List String) : Option Seq.Op :=
   | ["rm", k] => some (.remove (keyNum k))
   | _ => none
 
-partial def judgeSeqLoop (g d : Bool) (st : Seq.St) (lines : List String) (idx : Nat)
+/-- Does the item of a Set fit the cache on its own? (The known panic needs an item that does not.) -/
+def opFitsB (cfg : List String) (op : Seq.Op) : Bool :=
+  let lim := (kvOf cfg "limit").toNat!
+  let sz := match op with
+    | .set _ _ sz _ => sz
+    | .setFail _ sz _ => sz
+    | _ => 0
+  match kvOf cfg "policy" with
+  | "lfusize" => sz ≤ lim
+  | "lfukeys" => 1 ≤ lim
+  | _ => true
+
+partial def judgeSeqLoop (cfg : List String) (g d : Bool) (st : Seq.St) (lines : List String) (idx : Nat)
     (sets : List (Nat × Nat)) (acc : Verdict) : Verdict :=
   match lines with
   | opl :: resl :: callsl :: rest =>
     match parseSeqOp (tokens opl), tokens resl, tokens callsl with
     | some op, "res" :: res, ["calls", calls] =>
-      if res == ["skipped"] then judgeSeqLoop g d st rest (idx + 1) sets acc else
+      if res == ["skipped"] then judgeSeqLoop cfg g d st rest (idx + 1) sets acc else
       let r := Seq.step g d st op
       let (expRes, expCalls) := expectSeq op r.2
       let obsRes := match res with
@@ -106,8 +118,10 @@ partial def judgeSeqLoop (g d : Bool) (st : Seq.St) (lines : List String) (idx :
       -- judge
       let acc := match res with
         | "panic" :: kind :: _ =>
-          if kind == "index-out-of-range" then
-            { acc with violations := acc.violations ++ [("C19.lfu-pop-empty-heap-panic", s!"op{idx}:{opl.replace " " "_"}:index-out-of-range-in-heap.Pop")] }
+          if kind == "index-out-of-range" && !opFitsB cfg op then
+            { acc with violations := acc.violations ++ [("C19.lfu-pop-empty-heap-panic", s!"op{idx}:{opl.replace " " "_"}:index-out-of-range-in-heap.Pop:item-does-not-fit-the-cache-on-its-own")] }
+          else if kind == "index-out-of-range" then
+            { acc with violations := acc.violations ++ [("C19.lfu-panic-although-item-fits", s!"op{idx}:{opl.replace " " "_"}:index-out-of-range")] }
           else { acc with violations := acc.violations ++ [("C19.panic", s!"op{idx}:{opl.replace " " "_"}")] }
         | ["hit", v] =>
           match op, valNum v with
@@ -129,7 +143,7 @@ partial def judgeSeqLoop (g d : Bool) (st : Seq.St) (lines : List String) (idx :
         | _ => 0
       let acc := { acc with stats := addStats acc.stats ([(kind, 1), ("evictions", evs)] ++
         (match r.2 with | .hit _ => [("hits", 1)] | .miss => [("misses", 1)] | .panic => [("panics", 1)] | _ => [])) }
-      judgeSeqLoop g d r.1 rest (idx + 1) sets acc
+      judgeSeqLoop cfg g d r.1 rest (idx + 1) sets acc
     | _, _, _ => { acc with diverge := acc.diverge ++ [s!"unparsable-triple-at-op{idx}"] }
   | [] => acc
   | _ => { acc with diverge := acc.diverge ++ ["incomplete-triple"] }
@@ -137,7 +151,7 @@ partial def judgeSeqLoop (g d : Bool) (st : Seq.St) (lines : List String) (idx :
 def judgeSeq (cfg : List String) (lines : List String) : Verdict :=
   match codeGuarded, codeDedupe with
   | some g, some d =>
-    let v := judgeSeqLoop g d (Seq.init (policyOf cfg)) lines 0 [] {}
+    let v := judgeSeqLoop cfg g d (Seq.init (policyOf cfg)) lines 0 [] {}
     let n := lines.length / 3
     let evs := (v.stats.find? (·.1 == "evictions")).map (·.2) |>.getD 0
     -- dedupe violation signatures
@@ -211,7 +225,7 @@ def judgePart (cfg : List String) (lines : List String) : Verdict := Id.run do
       obs := obs ++ [r]
       -- a read that was open across the delete/put may see either; every later read must see `cur`
       if tag != "open-across" && r != cur then
-        vio := vio ++ [("C19.partstore-late-fill-serves-stale-bytes",
+        vio := vio ++ [(if sched == "2" then "C19.partstore-stale-read-without-overlap" else "C19.partstore-late-fill-serves-stale-bytes",
           s!"{tag}:GetPart-returned-{desc}-but-the-id-now-holds-{match cur with | some n => toString n | none => "nothing"}")]
     | "panic" :: _ => vio := vio ++ [("C19.panic", l)]
     | _ => div := div ++ [s!"unparsable:{l.take 40}"]
